@@ -195,35 +195,121 @@ func KnownNonNil(v ssa.Value) bool {
 	return false
 }
 
+// evalOnEdge evaluates the branch condition of b for the value its phi takes over one incoming edge:
+// cond is built from the phi, constants, !, and one comparison.
+func evalOnEdge(cond ssa.Value, ph *ssa.Phi, e ssa.Value) (bool, bool) {
+	switch x := cond.(type) {
+	case *ssa.UnOp:
+		if x.Op == token.NOT {
+			v, ok := evalOnEdge(x.X, ph, e)
+			return !v, ok
+		}
+	case *ssa.Phi:
+		if x == ph {
+			if c, isC := e.(*ssa.Const); isC && c.Value != nil && c.Value.Kind() == constant.Bool {
+				return constant.BoolVal(c.Value), true
+			}
+		}
+	case *ssa.BinOp:
+		l, r := x.X, x.Y
+		op := x.Op
+		if r == ssa.Value(ph) {
+			// const OP phi  ≡  phi OP' const
+			l, r = r, l
+			switch op {
+			case token.LSS:
+				op = token.GTR
+			case token.GTR:
+				op = token.LSS
+			case token.LEQ:
+				op = token.GEQ
+			case token.GEQ:
+				op = token.LEQ
+			}
+		}
+		if l != ssa.Value(ph) {
+			return false, false
+		}
+		switch op {
+		case token.EQL, token.NEQ, token.LSS, token.LEQ, token.GTR, token.GEQ:
+		default:
+			return false, false
+		}
+		if IsNilConst(r) {
+			if op != token.EQL && op != token.NEQ {
+				return false, false
+			}
+			switch {
+			case IsNilConst(e):
+				return op == token.EQL, true
+			case KnownNonNil(e):
+				return op == token.NEQ, true
+			}
+			return false, false
+		}
+		rc, okr := r.(*ssa.Const)
+		ec, oke := e.(*ssa.Const)
+		if !okr || !oke || rc.Value == nil || ec.Value == nil {
+			return false, false
+		}
+		if rc.Value.Kind() != ec.Value.Kind() {
+			return false, false
+		}
+		return constant.Compare(ec.Value, op, rc.Value), true
+	}
+	return false, false
+}
+
+// condPhi: the phi of block b that the block's branch condition is built on (see evalOnEdge).
+func condPhi(b *ssa.BasicBlock) (*ssa.If, *ssa.Phi) {
+	if len(b.Instrs) == 0 {
+		return nil, nil
+	}
+	ifi, ok := b.Instrs[len(b.Instrs)-1].(*ssa.If)
+	if !ok {
+		return nil, nil
+	}
+	v := ifi.Cond
+	for {
+		if u, isU := v.(*ssa.UnOp); isU && u.Op == token.NOT {
+			v = u.X
+			continue
+		}
+		break
+	}
+	if p, isPhi := v.(*ssa.Phi); isPhi && p.Block() == b {
+		return ifi, p
+	}
+	if bo, isB := v.(*ssa.BinOp); isB {
+		if p, isPhi := bo.X.(*ssa.Phi); isPhi && p.Block() == b {
+			if _, isC := bo.Y.(*ssa.Const); isC {
+				return ifi, p
+			}
+		}
+		if p, isPhi := bo.Y.(*ssa.Phi); isPhi && p.Block() == b {
+			if _, isC := bo.X.(*ssa.Const); isC {
+				return ifi, p
+			}
+		}
+	}
+	return nil, nil
+}
+
 // threadedSucc: the only successor index of b that can follow when b was entered from `from`; -1 if undetermined.
 func threadedSucc(b, from *ssa.BasicBlock) int {
-	ph, neg, nilcmp, ok := threadableKind(b)
-	if !ok || from == nil {
+	ifi, ph := condPhi(b)
+	if ifi == nil || from == nil {
 		return -1
 	}
 	for k, p := range b.Preds {
 		if p != from {
 			continue
 		}
-		e := ph.Edges[k]
-		var t bool
-		if nilcmp {
-			switch {
-			case IsNilConst(e):
-				t = true // phi == nil
-			case KnownNonNil(e):
-				t = false
-			default:
-				return -1
-			}
-		} else {
-			c, isC := e.(*ssa.Const)
-			if !isC || c.Value == nil || c.Value.Kind() != constant.Bool {
-				return -1
-			}
-			t = constant.BoolVal(c.Value)
+		t, ok := evalOnEdge(ifi.Cond, ph, ph.Edges[k])
+		if !ok {
+			return -1
 		}
-		if t != neg {
+		if t {
 			return 0
 		}
 		return 1
@@ -249,7 +335,7 @@ func Reach(starts []Pt, o Opts) Result {
 		if p.B == nil {
 			return
 		}
-		if _, _, th := threadable(p.B); !th || p.I != 0 {
+		if ifi, _ := condPhi(p.B); ifi == nil || p.I != 0 {
 			if _, _, _, rp := retPhi(p.B); !rp || p.I != 0 {
 				from = nil
 			}
